@@ -13,7 +13,7 @@ for sid in sys.argv[1:]:
     except Exception:
         print(sid, "NOT CONFIRMED (no result)"); continue
     ok = (res["demo_without_change"][0] == 0 and res["demo_with_change"][0] != 0
-          and all(("mainnet_100k" in f or "testnet_10k" in f or m["demo_filter"] in f) for f in res["suite_failed"]))
+          and all(("mainnet_100k" in f or "testnet_10k" in f or "mainnet_next_targets" in f or "testnet_next_targets" in f or m["demo_filter"] in f) for f in res["suite_failed"]))
     if not ok:
         print(sid, "NOT CONFIRMED"); continue
     subprocess.run(["python3", HERE + "/seed_save.py", src, sid, "round 3"], check=True)
